@@ -28,11 +28,18 @@ struct bool_c
     static constexpr bool value = B;
 };
 
+// A traversal of a frame of at most 1 MiB cannot legitimately produce more records than this;
+// beyond it the code under test is running away (reported through the handler seam so that the
+// run ends as an ordinary outcome instead of eating memory).
+constexpr std::size_t kMaxRecords = 300000;
+[[noreturn]] void runaway(); // defined by the engine (wire/main.cpp)
+
 struct Ctx
 {
     const Req* rq;
     Res* rs;
     u8* p;
+    bool by_tag = false; // cursor walks: go through sbepp::get_by_tag / set_by_tag instead of the named accessors
     template<class T>
     long long off(T* ptr) const
     {
@@ -90,6 +97,15 @@ V make_value(kind_c<K_SET>, u64 bits)
     return V{from_bits<U>(bits)};
 }
 
+template<class T, class = void>
+struct is_view_like : std::false_type
+{
+};
+template<class T>
+struct is_view_like<T, decltype(void(sbepp::addressof(std::declval<T&>())))> : std::true_type
+{
+};
+
 // generic bits of anything a visitor or accessor can hand out
 template<class T>
 void describe(const Ctx& cx, T v, bool& has_bits, u64& bits, bool& has_addr, long long& addr_off, u64& size)
@@ -114,11 +130,29 @@ void describe(const Ctx& cx, T v, bool& has_bits, u64& bits, bool& has_addr, lon
         has_bits = true;
         bits = to_bits(v.value());
     }
-    else
+    else if constexpr(std::is_arithmetic<T>::value)
+    {
+        // not a view and not an sbepp value type (e.g. a raw constant): still describable
+        has_bits = true;
+        bits = to_bits(v);
+    }
+    else if constexpr(std::is_convertible<T, const char*>::value)
+    {
+        const char* s = v;
+        has_bits = true;
+        bits = s ? sim::fnv1a(s, std::strlen(s)) : 0;
+    }
+    else if constexpr(is_view_like<T>::value)
     {
         has_addr = true;
         addr_off = cx.off(sbepp::addressof(v));
         (void)size;
+    }
+    else
+    {
+        // something the visit API is not documented to deliver: recorded without payload
+        (void)cx;
+        (void)v;
     }
 }
 
@@ -191,6 +225,42 @@ void array_op(Ctx& cx, A a)
         for(auto it = a.begin(); it != a.end(); ++it) sum = sum * 131 + (u8)*it;
         rs.has_bits = true;
         rs.bits = sum;
+        break;
+    }
+    case A_RAW_ITER:
+    {
+        auto r = a.raw();
+        u64 sum = 0;
+        for(std::size_t i = 0; i < r.size(); i++) sum = sum * 131 + (u8)r[i];
+        rs.has_bits = true;
+        rs.bits = sum;
+        rs.has_addr = true;
+        rs.addr_off = cx.off(r.data());
+        break;
+    }
+    case A_RAW_WRITE:
+    {
+        auto r = a.raw();
+        if(r.size())
+        {
+            auto last = r[r.size() - 1];
+            r[r.size() - 1] = last;
+        }
+        break;
+    }
+    case A_REVERSE:
+    {
+        u64 sum = 0;
+        for(auto it = a.rbegin(); it != a.rend(); ++it) sum = sum * 131 + (u8)*it;
+        rs.has_bits = true;
+        rs.bits = sum;
+        break;
+    }
+    case A_ASSIGN_N: a.assign(a.size(), static_cast<V>(rq.arg)); break;
+    case A_ASSIGN_RANGE:
+    {
+        std::vector<V> src(a.size(), static_cast<V>(rq.arg));
+        a.assign_range(src);
         break;
     }
     default: rs.unsupported = true;
@@ -271,6 +341,7 @@ void record_entry(Ctx& cx, const G& e)
     ev.tag = -1;
     ev.has_addr = true;
     ev.addr_off = cx.off(sbepp::addressof(e));
+    if(cx.rs->events.size() >= kMaxRecords) runaway();
     cx.rs->events.push_back(ev);
 }
 
@@ -459,6 +530,7 @@ struct Recorder
         ev.kind = kind;
         ev.tag = TagId::id(Tag{});
         describe(*cx, v, ev.has_bits, ev.bits, ev.has_addr, ev.addr_off, ev.size);
+        if(cx->rs->events.size() >= kMaxRecords) runaway();
         cx->rs->events.push_back(ev);
         return cx->rs->events.back();
     }
@@ -486,6 +558,7 @@ struct Recorder
         ev.has_addr = true;
         ev.addr_off = cx->off(sbepp::addressof(e));
         ev.cursor_off = cx->off(c.pointer());
+        if(cx->rs->events.size() >= kMaxRecords) runaway();
         cx->rs->events.push_back(ev);
         if(tick()) return true;
         if(deep) sbepp::visit_children(e, c, *this);
@@ -585,6 +658,34 @@ inline bool is_moving(int w)
 template<class L, class View, class Cursor>
 void cursor_level(Ctx& cx, View v, Cursor& c, ScriptState& ss, u64 inst_start);
 
+// Calls a member through its named accessor or, when by_tag is set, through
+// sbepp::get_by_tag / set_by_tag with the member's tag (cursor forms).
+template<class TagT, class Acc>
+struct ByTagOrNamed
+{
+    bool by_tag;
+    Acc named;
+    template<class V>
+    decltype(auto) operator()(V&& v) const
+    {
+        return named(v);
+    }
+    template<class V, class Cur>
+    decltype(auto) operator()(V&& v, Cur&& cur) const
+    {
+        if(by_tag) return sbepp::get_by_tag<TagT>(v, std::forward<Cur>(cur));
+        return named(v, std::forward<Cur>(cur));
+    }
+    template<class V, class Val, class Cur>
+    void operator()(V&& v, Val&& val, Cur&& cur) const
+    {
+        if(by_tag)
+            sbepp::set_by_tag<TagT>(v, std::forward<Val>(val), std::forward<Cur>(cur));
+        else
+            named(v, std::forward<Val>(val), std::forward<Cur>(cur));
+    }
+};
+
 template<class Cursor>
 CursorStep& begin_step(Ctx& cx, Cursor& c, int level, u64 inst_start, int mkind, int member, const Decision& d)
 {
@@ -596,6 +697,7 @@ CursorStep& begin_step(Ctx& cx, Cursor& c, int level, u64 inst_start, int mkind,
     st.wrapper = d.wrapper;
     if(d.displace) c.pointer() += d.displace;
     st.cursor_before = cx.off(c.pointer());
+    if(cx.rs->csteps.size() >= kMaxRecords) runaway();
     cx.rs->csteps.push_back(st);
     return cx.rs->csteps.back();
 }
@@ -606,8 +708,11 @@ void cursor_level(Ctx& cx, View v, Cursor& c, ScriptState& ss, u64 inst_start)
     constexpr bool writable_cursor = !std::is_const<typename std::remove_reference<decltype(*c.pointer())>::type>::value;
     for(int i = 0; i < L::n_fields; i++)
     {
-        L::field(i, [&](auto k, auto, auto acc, auto) {
+        L::field(i, [&](auto k, auto, auto acc0, auto tag) {
             using K = decltype(k);
+            using TagT = typename decltype(tag)::type;
+            // the named accessor, or the same call routed through the tag-based API
+            ByTagOrNamed<TagT, decltype(acc0)> acc{cx.by_tag, acc0};
             for(int rep = 0; rep < 4; rep++)
             {
                 Decision d = ss.next();
@@ -655,8 +760,10 @@ void cursor_level(Ctx& cx, View v, Cursor& c, ScriptState& ss, u64 inst_start)
     }
     for(int gi = 0; gi < L::n_groups; gi++)
     {
-        L::group(gi, [&](auto child, auto, auto acc, auto) {
+        L::group(gi, [&](auto child, auto, auto acc0, auto tag) {
             using Child = typename decltype(child)::type;
+            using TagT = typename decltype(tag)::type;
+            ByTagOrNamed<TagT, decltype(acc0)> acc{cx.by_tag, acc0};
             for(int rep = 0; rep < 4; rep++)
             {
                 Decision d = ss.next();
@@ -692,6 +799,7 @@ void cursor_level(Ctx& cx, View v, Cursor& c, ScriptState& ss, u64 inst_start)
                                     st.addr_off = cx.off(sbepp::addressof(e));
                                     st.cursor_off = cx.off(c.pointer());
                                     st.cursor_before = st.cursor_off;
+                                    if(cx.rs->csteps.size() >= kMaxRecords) runaway();
                                     cx.rs->csteps.push_back(st);
                                     cursor_level<Child>(cx, e, c, ss, (u64)st.addr_off);
                                 }
@@ -719,7 +827,9 @@ void cursor_level(Ctx& cx, View v, Cursor& c, ScriptState& ss, u64 inst_start)
     }
     for(int di = 0; di < L::n_data; di++)
     {
-        L::data(di, [&](auto acc, auto) {
+        L::data(di, [&](auto acc0, auto tag) {
+            using TagT = typename decltype(tag)::type;
+            ByTagOrNamed<TagT, decltype(acc0)> acc{cx.by_tag, acc0};
             for(int rep = 0; rep < 4; rep++)
             {
                 Decision d = ss.next();
@@ -982,6 +1092,7 @@ void message_op(Ctx& cx, const SchemaShape& sh)
     case M_SIZE_BYTES_CURSOR:
     {
         ScriptState ss{rq.sub == M_CURSOR_WALK ? rq.script : nullptr};
+        cx.by_tag = (rq.arg & 4) != 0;
         if(rq.arg & 1)
         {
             CMV cm{const_cast<const char*>(p), rq.n};
